@@ -318,6 +318,9 @@ Section Conf.
              tags_distinct [f_tag f0; f_tag f1; f_tag f2; f_tag f3; object_tag obj] &&
              keeps st (f_ty f0) (f_tag f0) uid && keeps st (f_ty f1) (f_tag f1) rep &&
              keeps st (f_ty f2) (f_tag f2) kwt && keeps st (f_ty f3) (f_tag f3) (VList attrs) &&
+             (* an empty omitempty element is not written: it must hold what d.Opt leaves there *)
+             (if is_zero rep then value_eqb rep (zero_of S 8 (f_ty f1)) else true) &&
+             (if is_zero kwt then value_eqb kwt (zero_of S 8 (f_ty f2)) else true) &&
              conf_object st ot obj
           then Some st else None
         | None => None
@@ -339,6 +342,7 @@ Section Conf.
       else if String.eqb n "payloads.GetResponsePayload" then conf_typed_object 2 st d tag fs
       else if String.eqb n "payloads.RegisterRequestPayload" then conf_typed_object 2 st d tag fs
       else if String.eqb n "payloads.ExportResponsePayload" then conf_typed_object 3 st d tag fs
+      else if String.eqb n "payloads.ImportRequestPayload" then conf_import_request st d tag fs
       else None.
   End ConfCustoms.
 
